@@ -230,6 +230,24 @@ Definition exec_authorize (s : state) (signer addr : N) (l : list (N * N)) (wf :
   do ont' <- ont_transfer (s_ont s1) addr GOV total;
   Ok (set_stakes (deposit_stake (s_stakes s1) addr total) (set_ont ont' s1)).
 
+(** the bucket arithmetic of one UnAuthorizeForPeer iteration, for the effective amount [pos] *)
+Definition unauth_apply (s : state) (addr k : N) (p : peerv) (i : infov) (pos : N) : outcome state :=
+  if i_new i <? pos then
+    let rest := pos - i_new i in
+    if p_status p =? ConsensusStatus then
+      do _ <- guard (i_cons i <? rest) ENotEnough;
+      let i' := mkIV (wsub (w64 (i_cons i + i_new i)) pos) (i_cand i) 0
+                     (wsub (w64 (i_wcons i + pos)) (i_new i)) (i_wcand i) (w64 (i_wunf i + i_new i)) in
+      Ok (set_infos (iset k addr i' (s_infos s)) (set_pool (pset k (with_total p (wsub (p_total p) pos)) (s_pool s)) s))
+    else
+      do _ <- guard (i_cand i <? rest) ENotEnough;
+      let i' := mkIV (i_cons i) (wsub (w64 (i_cand i + i_new i)) pos) 0
+                     (i_wcons i) (wsub (w64 (i_wcand i + pos)) (i_new i)) (w64 (i_wunf i + i_new i)) in
+      Ok (set_infos (iset k addr i' (s_infos s)) (set_pool (pset k (with_total p (wsub (p_total p) pos)) (s_pool s)) s))
+  else
+    let i' := mkIV (i_cons i) (i_cand i) (i_new i - pos) (i_wcons i) (i_wcand i) (w64 (i_wunf i + pos)) in
+    Ok (set_infos (iset k addr i' (s_infos s)) (set_pool (pset k (with_total p (wsub (p_total p) pos)) (s_pool s)) s)).
+
 (** one iteration of the UnAuthorizeForPeer loop *)
 Definition unauth_item (s : state) (addr : N) (kp : N * N) : outcome state :=
   let '(k, pos0) := kp in
@@ -244,21 +262,7 @@ Definition unauth_item (s : state) (addr : N) (kp : N * N) : outcome state :=
   | None => Fail ENoPeer
   | Some p =>
       do _ <- guard (negb (is_active (p_status p))) EStatus;
-      if i_new i <? pos then
-        let rest := pos - i_new i in
-        if p_status p =? ConsensusStatus then
-          do _ <- guard (i_cons i <? rest) ENotEnough;
-          let i' := mkIV (wsub (w64 (i_cons i + i_new i)) pos) (i_cand i) 0
-                         (wsub (w64 (i_wcons i + pos)) (i_new i)) (i_wcand i) (w64 (i_wunf i + i_new i)) in
-          Ok (set_infos (iset k addr i' (s_infos s)) (set_pool (pset k (with_total p (wsub (p_total p) pos)) (s_pool s)) s))
-        else
-          do _ <- guard (i_cand i <? rest) ENotEnough;
-          let i' := mkIV (i_cons i) (wsub (w64 (i_cand i + i_new i)) pos) 0
-                         (i_wcons i) (wsub (w64 (i_wcand i + pos)) (i_new i)) (w64 (i_wunf i + i_new i)) in
-          Ok (set_infos (iset k addr i' (s_infos s)) (set_pool (pset k (with_total p (wsub (p_total p) pos)) (s_pool s)) s))
-      else
-        let i' := mkIV (i_cons i) (i_cand i) (i_new i - pos) (i_wcons i) (i_wcand i) (w64 (i_wunf i + pos)) in
-        Ok (set_infos (iset k addr i' (s_infos s)) (set_pool (pset k (with_total p (wsub (p_total p) pos)) (s_pool s)) s))
+      unauth_apply s addr k p i pos
   end.
 
 Fixpoint unauth_loop (s : state) (addr : N) (l : list (N * N)) : outcome state :=
